@@ -570,6 +570,9 @@ func runC07Child(runs []c07Run, timeout time.Duration) c07ChildOut {
 
 type c07Replay struct {
 	Run c07Run `json:"run"`
+	// History: the runs the process had executed before Run (state that lives in the process -
+	// pools, caches, lazily built tables - can be what the failure needs)
+	History []c07Run `json:"history,omitempty"`
 }
 
 // c07Judge turns what one run showed into (signature, detail) pairs.
@@ -598,8 +601,37 @@ func replayC07(c *Ctx, raw json.RawMessage) (bool, string) {
 	if err := json.Unmarshal(raw, &rp); err != nil {
 		return false, err.Error()
 	}
+	if len(rp.History) > 0 {
+		return c07ReproduceAfter(rp.History, rp.Run, 4)
+	}
 	ok, d := c07Reproduce(rp.Run, 6)
 	return ok, d
+}
+
+// c07ReproduceAfter runs history and then run in one fresh -race process and judges run.
+func c07ReproduceAfter(history []c07Run, run c07Run, attempts int) (bool, string) {
+	batch := append(append([]c07Run{}, history...), run)
+	batch[0].Fresh = true
+	for i := 0; i < attempts; i++ {
+		out := runC07Child(batch, 20*time.Minute)
+		var res *c07Result
+		for k := range out.Results {
+			if out.Results[k].ID == run.ID {
+				res = &out.Results[k]
+			}
+		}
+		// the race runtime reports a racy pair once per process: in this process it may already
+		// show in an earlier run of the history, so every report of the batch counts
+		sigs, details := c07Judge(&run, res, out.Races)
+		if out.Crash != "" && out.CrashID == run.ID {
+			sigs = append(sigs, "C07/crash")
+			details = append(details, fmt.Sprintf("the process died during concurrent calls on a shared %s instance (apis %v):\n%s", run.Config, run.Api, out.Crash))
+		}
+		if len(sigs) > 0 {
+			return true, fmt.Sprintf("(after the %d runs the process had executed before)\n", len(history)) + strings.Join(details, "\n")
+		}
+	}
+	return false, "no race report, no panic and no output difference after the same process history in " + strconv.Itoa(attempts) + " fresh processes"
 }
 
 // c07Reproduce runs one run alone in fresh -race processes (each attempt is a new process
@@ -619,6 +651,21 @@ func c07Reproduce(run c07Run, attempts int) (bool, string) {
 		}
 		if len(sigs) > 0 {
 			return true, strings.Join(details, "\n")
+		}
+	}
+	// what a process keeps between calls (pools) can be what the failure needs: the same calls
+	// repeated in one process, free-running, with collections in between, on one and on two Ps
+	for _, procs := range []int{1, 2} {
+		r2 := run
+		r2.Mode, r2.Sched, r2.Rounds, r2.Procs, r2.GC, r2.Yield = "stress", nil, 40, procs, true, 150
+		out := runC07Child([]c07Run{r2}, 5*time.Minute)
+		var res *c07Result
+		if len(out.Results) > 0 {
+			res = &out.Results[0]
+		}
+		sigs, details := c07Judge(&r2, res, out.Races)
+		if len(sigs) > 0 {
+			return true, "(the calls of the run repeated 40 times in one process with collections in between)\n" + strings.Join(details, "\n")
 		}
 	}
 	return false, "no race report, no panic and no output difference in " + strconv.Itoa(attempts) + " fresh processes"
@@ -766,6 +813,7 @@ func runC07(c *Ctx) {
 		run := c07MakeRun(nextID, "stress", cf, api, docs, 1)
 		run.Procs = []int{1, 2, 16}[i%3]
 		run.Yield = []int{0, 150, 600}[(i/3)%3]
+		run.GC = i%4 == 1
 		run.Rounds = 1
 		if i%5 == 4 {
 			run.Rounds = 12
@@ -825,6 +873,12 @@ func runC07(c *Ctx) {
 	wg.Wait()
 
 	// ---- judge
+	where := map[int][2]int{} // run id -> (batch, position in the batch)
+	for bi := range batches {
+		for k := range batches[bi] {
+			where[batches[bi][k].ID] = [2]int{bi, k}
+		}
+	}
 	results := map[int]*c07Result{}
 	racesBy := map[int][]c07Race{}
 	type crash struct {
@@ -894,10 +948,20 @@ func runC07(c *Ctx) {
 			}
 			seenSig[sig] = true
 			ok, d := c07Reproduce(*run, 6)
+			rp := c07Replay{Run: *run}
 			if !ok {
-				infra("C07: %s observed in run %d (%s) but not reproduced in 6 fresh processes:\n%s", sig, id, run.ClassID, details[i])
+				// alone it does not show: what the process had done before may be needed
+				if w, has := where[id]; has && w[1] > 0 {
+					hist := append([]c07Run{}, batches[w[0]][:w[1]]...)
+					if ok2, d2 := c07ReproduceAfter(hist, *run, 4); ok2 {
+						ok, d, rp.History = true, d2, hist
+					}
+				}
 			}
-			c.Report(Violation{Signature: sig, Detail: d, Replay: c07Replay{Run: *run}})
+			if !ok {
+				infra("C07: %s observed in run %d (%s) but not reproduced in 6 fresh processes nor after the same process history:\n%s", sig, id, run.ClassID, details[i])
+			}
+			c.Report(Violation{Signature: sig, Detail: d, Replay: rp})
 		}
 	}
 	if timedOut > 0 {
